@@ -26,6 +26,8 @@ def replay_load(run, cases, trace_module, trace_cfg, build_features=("json",), v
     shutil.rmtree(wd, ignore_errors=True)
     os.makedirs(wd)
     binary = vp.cargo_build(package, build_features if package == "drv_parser" else (), variant=variant if package == "drv_parser" else None)
+    if package == "drv_codegen":
+        trace_env = dict(trace_env or {})
     rows = []
     for i, c in enumerate(cases):
         c["id"] = i + 1
@@ -50,7 +52,7 @@ def replay_load(run, cases, trace_module, trace_cfg, build_features=("json",), v
     run.cases += len(rows)
     events = {}
     if rejects:
-        events = {e["case"]: e for e in vp.read_ndjson(trace_path) if e.get("ev") in ("Load", "Crash", "Value", "Build")}
+        events = {e["case"]: e for e in vp.read_ndjson(trace_path) if e.get("ev") in ("Load", "Crash", "Value", "Build", "Codegen")}
     for r in rejects:
         c = cases[r["case"] - 1]
         key = key_of(c, r) if key_of else vp.fingerprint({"abs": c.get("abs"), "tags": sorted(r["tags"])[:1]})
